@@ -74,7 +74,7 @@ def reference(case: dict[str, Any]) -> dict[str, Any]:
         starts.append(t)
         if succeed_at is not None and k - 1 == succeed_at:
             return {"executions": k, "failed": False, "starts": starts}
-        tf = t + dur
+        tf = t + dur + (case.get("wait_timeout", 0.0) if case.get("wait_on_attempt") == k - 1 else 0.0)
         e = tf - start1
         if not case.get("retryable", True):
             break
@@ -170,6 +170,12 @@ def cases(tier: str) -> list[dict[str, Any]]:
         cs.append({"stop": ("delay", 2.5), "wait": 1, "dur": 0.7, "sibling": sibk, "clause": "delay_budget"})
         cs.append({"stop": ("attempt", 3), "wait": 1, "dur": 0.7, "sibling": sibk, "busy_block": 1.5, "clause": "attempt_budget"})
         cs.append({"stop": ("attempt", 4), "wait": 1, "dur": 0.7, "sibling": sibk, "succeed_at": 2, "clause": "attempt_budget"})
+    # ... or nobody answers and the wait ends with its TimeoutError 5 s later: the attempt goes on and fails; the waiting time is
+    # part of the attempt (and of the elapsed time), the retry number and previous exception stay what they were
+    for won in (0, 1, 2):
+        cs.append({"stop": ("attempt", 4), "wait": 0, "dur": 0.0, "wait_on_attempt": won, "wait_timeout": 5.0, "clause": "attempt_budget"})
+        cs.append({"stop": ("attempt", 3), "wait": 1, "dur": 0.7, "wait_on_attempt": won, "wait_timeout": 5.0, "clause": "attempt_budget"})
+        cs.append({"stop": ("delay", 12.0), "wait": 1, "dur": 0.7, "wait_on_attempt": won, "wait_timeout": 5.0, "clause": "delay_budget"})
     # ... and budgets of a day and more (timedelta keeps days apart from seconds), alone and composed
     for d in (86400.0, 86402.5, 129600.0):
         for wait, dur in ((40000, 0.7), (30000, 0.0)):
@@ -222,7 +228,7 @@ def check_case(case: dict[str, Any]) -> tuple[dict[str, Any], list[tuple[str, di
         obs = run_failing(build_policy(case), exc_for, dur=case["dur"], clock=tuple(case["clock"]),
                           wall_adapter=case["wall_adapter"], with_handler=case["handler"],
                           queue_wait=case.get("queue_wait", 0.0), busy_block=case.get("busy_block", 0.0),
-                          wait_on_attempt=case.get("wait_on_attempt"), sibling=case.get("sibling"),
+                          wait_on_attempt=case.get("wait_on_attempt"), wait_timeout=case.get("wait_timeout", 0.0), sibling=case.get("sibling"),
                           sibling_policy=(retry_policy(wait=wait_fixed(case["wait"]), stop=stop_after_attempt(ref["executions"] + 3))
                                           if case.get("sibling") == "flaky" else None))
     except Livelock:
@@ -240,6 +246,8 @@ def check_case(case: dict[str, Any]) -> tuple[dict[str, Any], list[tuple[str, di
         w["retry_queued_behind_busy_worker"] = True
     if case.get("wait_on_attempt") is not None:
         w["an_attempt_waits_for_an_event"] = "first" if case["wait_on_attempt"] == 0 else "a_retry"
+        if case.get("wait_timeout"):
+            w["the_wait_times_out"] = True
     if case.get("sibling"):
         w["another_step_accepts_the_same_event"] = case["sibling"]
     desc = f"case={ {k: case[k] for k in case if k not in ('clause',)} }"
@@ -271,7 +279,7 @@ def check_case(case: dict[str, Any]) -> tuple[dict[str, Any], list[tuple[str, di
         if fe is None:
             v.append(("failed_event_missing", w, f"{desc}: no failure event observed"))
         else:
-            real_elapsed = obs.attempts[-1].t_fail - obs.attempts[0].t_enter
+            real_elapsed = obs.attempts[-1].t_fail - (obs.first_entry_t if obs.first_entry_t is not None else obs.attempts[0].t_enter)
             if fe.attempts != n_exec:
                 v.append(("failed_event_attempts", {**w, "event": type(fe).__name__},
                           f"{desc}: {type(fe).__name__}.attempts={fe.attempts}, real {n_exec}"))
